@@ -476,6 +476,8 @@ def positional_binding(ctx, rid, core):
                     ok = None
                 elif cond_insert:
                     ok = False
+                elif any(H.kind(x) == "If" and sum(1 for y in H.walk(x["cond"]) if H.kind(y) == "MethodCall" and y["name"] == "len") >= 2 for x in H.walk(aa["body"])):
+                    ok = False   # what the rest parameter gets depends on comparing the argument count with the parameter count, not on its own position
                 elif S.contains_head(val, "index") or any(H.kind(x) == "Index" and H.kind(H.strip(x["i"])) == "Struct" and "ops::range" in (H.strip(x["i"])["res"].get("def") or "") for x in H.walk(aa["body"])):
                     ok = False   # args[idx..]: panics when an optional parameter before the rest was omitted (idx > len)
                 elif S.contains(val, NULL) or S.contains_call(val, "unwrap_or") or S.contains_call(val, "unwrap_or_default"):
